@@ -354,7 +354,7 @@ pub fn run(ctx: &Ctx) {
         lim7.max_queued = 250;
         ctx.add_excluded_known(1);
     }
-    let max_ops = ctx.n(150, 600) as usize;
+    let max_ops = ctx.sz(150, 600) as usize;
     for v in VARIANTS {
         let lim = if v == Variant::V7 { &lim7 } else { &lim6 };
         ctx.prop(&format!("calls/{}", v.name()), ctx.n(3000, 60_000), || case_strategy(max_ops), |c: &Case| check(v, c, lim));
@@ -370,7 +370,7 @@ pub fn run(ctx: &Ctx) {
         );
     }
     // single chunk of every length, vital and not, all variants: sent, flushed, lost, resent
-    let max = ctx.n(1500, 2100);
+    let max = ctx.sz(1500, 2100);
     let lim6max = lim6.max_len as u64;
     ctx.exhaustive(
         "single_chunk_every_length",
